@@ -243,6 +243,11 @@ class Scheduler(object):
             raise SchedAbort()
         if t.atomic:
             return
+        if self.policy == "pct":
+            # a sleeping (polling) thread counts as yielding: without this, several high-priority pollers whose
+            # sleeps are shorter than their own polling steps starve the low-priority lock holder for ever
+            self._low -= 1.0
+            t.prio = self._low
         t.state = SLEEPING
         t.wake = self.clock + max(float(dt), 0.0)
         self._switch(t, ("sleep", dt), True)
